@@ -54,12 +54,15 @@ Alphabet ==
          {92, 54, 53, 52, 32, 51, 101, 69, 45}
     [] Family = "T11" -> \* hex escapes at the limits of the code space (10FFFF / 110000) and of the surrogates (D7FF D800 DFFF E000): 1 0 F d 8 7 e
          {49, 48, 70, 100, 56, 55, 101}
+    [] Family = "T13" -> \* strings that hold quotes of both kinds (after an opening quote of either kind): ' " \ a
+         {39, 34, 92, 97}
     [] Family = "T12" -> \* whole tokens separated by comments (the alphabet is the set of indices of Pieces)
          1..Len(Pieces)
 Prefixes ==
   CASE Family = "T3" -> {<<117, 114, 108, 40>>, <<85, 114, 76, 40>>, <<117, 114, 108, 40, 32>>}
     [] Family = "T7" -> {<<92>>, <<34, 92>>}
     [] Family = "T11" -> {<<92>>, <<34, 92>>}
+    [] Family = "T13" -> {<<34>>, <<39>>}
     [] Family = "T8" -> {<<>>, <<34>>}
     [] Family = "T10" -> {<<49>>}
     [] OTHER -> {<<>>}
